@@ -17,6 +17,7 @@ RULE = (
     "axis, counts n-1/n/n+1, ratios 0/eps/1/1+eps/-0.5 ...); every (row, argument) is executed on the real library: "
     "outside => must raise one of the library's errors or Value/Lookup/RuntimeError, inside => must not raise; values "
     "within the tolerance band of a boundary are 'may'. non-trivial = every (row, argument) with a verdict other than 'may'"
+    " Three-face shells in all six orders."
 )
 ASSUMPTIONS = [
     "the catalogue is hand-collected from docstrings and raise statements of the anchored files",
